@@ -303,7 +303,7 @@ impl<const N: usize> VmData<N> {
             ops_out.push(op);
         }
 
-        assert_eq!(workspace.count as usize + 1, ops_out.len());
+        assert_eq!(workspace.count as usize + output_count, ops_out.len());
         let asm_tape = workspace.alloc.finalize();
 
         Ok(VmData {
